@@ -142,7 +142,7 @@ func c04(w *World) {
 
 	// ---- inbound: generated streams, generated partition and timing ----
 	for ci, c := range conns {
-		n := w.W.Draw(25)
+		n := w.W.Draw(w.Deep(25))
 		if w.W.Chance(1, 10) {
 			n = 25 + w.W.Draw(16)
 		}
